@@ -17,6 +17,9 @@ ASSUMPTIONS = [
     "previous roughness: both solve the same equation to 1e-6, so the balance values agree to the solver tolerance only",
     "floating-point powers with integer-valued exponents (cos**2, x**4, x**p1) are modelled as repeated multiplication",
     "existence/uniqueness of the roots and convergence of the solvers are sampled, not proved",
+    "C11: 'vanishes to within the solver's 0.01 m/s step tolerance' is checked as a sign change of the independently evaluated "
+    "balance within +-0.1 m/s of the returned U10 (the solver bounds its last step, under-relaxed and possibly Aitken-extrapolated, "
+    "not the distance to the root; 0.032 m/s is observed on the unchanged tree)",
 ]
 
 RULES = {
@@ -29,7 +32,7 @@ RULES = {
     "C10": ("U in [0.1,80] log-uniform + NaNs, Charnock 0.005..0.04, with/without viscous term, python float / numpy scalar / "
             "array / 2D array / DataArray / 0-d DataArray; both solvers on test functions; Janssen roughness on C08 wind seas x winds "
             "with an independent 400-point scan of the balance on (e^-20,1); one case = one input set"),
-    "C11": ("JONSWAP wind seas with alpha 0.012..0.03 in all directions, deep/finite, st4/st4 and st4/st6, batches 1..4, with and "
+    "C11": ("a deterministic sweep through the onset of breaking (12 seas), then JONSWAP wind seas with alpha 0.006..0.03 in all directions, deep/finite, st4/st4 and st4/st6, batches 1..4, with and "
             "without a rate-of-change spectrum; empty spectra (zero dissipation); one case = one batch"),
 }
 
@@ -512,7 +515,9 @@ def c10_janssen(run, drv, rng, ncases):
             warnings.simplefilter("ignore")
             spec, ths, speed, wdir, wtype, ks, depth_mode = rand_case(run, rng, max_pts=3, kinds=[rng.choice(["jonswap", "pm", "mixed"]) for _ in range(3)])
             npts = spec.variance_density.shape[0]
-            gen, gp = wp.generation(rng.choice(wp.GEN_VARIANTS))
+            gv = wp.GEN_VARIANTS[case % len(wp.GEN_VARIANTS)]       # every parameter set (incl. the viscous one) in turn
+            run.count("janssen_viscous" if gv.get("viscous_stress_parameter") else "janssen_inviscid")
+            gen, gp = wp.generation(gv)
             z = gen.roughness(wp.da(speed), wp.da(wdir), spec, wind_speed_input_type=wtype).values
             info = dict(kinds=ks[:npts], depth=depth_mode, wind_type=wtype, speed=speed.tolist(), direction=wdir.tolist())
             for i in range(npts):
@@ -571,28 +576,50 @@ def c10_janssen(run, drv, rng, ncases):
 # C11
 # ------------------------------------------------------------------------------------------
 
+def onset_spectrum(alpha, depth):
+    """deterministic JONSWAP sea at the onset of breaking (fp 0.2 Hz, gamma 3.3, cos^8 spreading towards 50 degrees)"""
+    import xarray
+    from ocean_science_utilities.wavespectra.spectrum import FrequencyDirectionSpectrum
+    f = np.linspace(0.04, 0.8, 14)
+    d = np.linspace(0, 360, 12, endpoint=False)
+    E = wp.jonswap(f, 0.2, alpha, 3.3)[:, None] * wp.spreading(d, 50.0, 4)[None, :]
+    ds = xarray.Dataset(data_vars={"variance_density": (("time", "frequency", "direction"), E[None]), "latitude": ("time", [0.0]),
+                                   "longitude": ("time", [0.0]), "depth": ("time", [depth])},
+                        coords={"time": [np.datetime64("2022-01-01", "ns")], "frequency": f, "direction": d})
+    return FrequencyDirectionSpectrum(ds)
+
+
 def c11(run, drv, rng, ncases):
     from ocean_science_utilities.wavephysics.balance.balance import SourceTermBalance
     from ocean_science_utilities.wavephysics.windestimate import estimate_u10_from_source_terms
-    for case in range(ncases):
+    onset = [(a, k) for k in ("st4", "st6") for a in (0.004, 0.005, 0.006, 0.007, 0.008, 0.010)]
+    for case in range(-len(onset), ncases):
         with common.guard(run, f"C11 case {case}"), warnings.catch_warnings():
             warnings.simplefilter("ignore")
-            npts = rng.randint(1, 4)
-            nf = rng.choice([10, 14])
-            nd = rng.choice([12, 16, 24])
-            kinds = ["jonswap"] * npts
-            if case % 5 == 4:
-                kinds[rng.randrange(npts)] = "empty"
-            depth_mode = rng.choice(["deep", "deep", "finite"])
-            spec, ths = wp.make_spectrum(rng, npts, nf, nd, kinds, depth_mode)
-            # steep seas so that the dissipation is not zero
-            E = spec.variance_density.values * rng.choice([1.0, 1.5, 2.5])
-            spec = wp.with_density(spec, E)
-            gen, gp = wp.generation(rng.choice(wp.GEN_VARIANTS[:3]))
-            dkind = rng.choice(["st4", "st6"])
+            if case < 0:
+                # the onset of breaking, deterministically (the recorded finding is replayed here in every run)
+                alpha, dkind = onset[case + len(onset)]
+                npts, nf, nd, kinds, depth_mode = 1, 14, 12, ["jonswap"], "deep"
+                spec = onset_spectrum(alpha, np.inf)
+                E = spec.variance_density.values
+                gen, gp = wp.generation({})
+                run.count("onset_of_breaking")
+            else:
+                npts = rng.randint(1, 4)
+                nf = rng.choice([10, 14])
+                nd = rng.choice([12, 16, 24])
+                kinds = ["jonswap"] * npts
+                if case % 5 == 4:
+                    kinds[rng.randrange(npts)] = "empty"
+                depth_mode = rng.choice(["deep", "deep", "finite"])
+                spec, ths = wp.make_spectrum(rng, npts, nf, nd, kinds, depth_mode)
+                E = spec.variance_density.values * rng.choice([0.7, 1.0, 1.0, 1.5])
+                spec = wp.with_density(spec, E)
+                gen, gp = wp.generation(rng.choice(wp.GEN_VARIANTS[:3]))
+                dkind = rng.choice(["st4", "st6"])
             dis, dp = wp.dissipation(dkind, {})
             bal = SourceTermBalance(gen, dis)
-            with_rate = rng.random() < 0.4
+            with_rate = case >= 0 and rng.random() < 0.4
             tds = None
             if with_rate:
                 # content in every bin (also against the wind), a noticeable fraction of the dissipation
@@ -642,23 +669,41 @@ def c11(run, drv, rng, ncases):
                 # does the balance have a root between 2 and 40 m/s?
                 us = np.linspace(2.0, 40.0, 20)
                 bs = np.array([balance_at(i, float(u)) for u in us])
-                has_root = np.all(np.isfinite(bs)) and bs[0] < 0 < bs[-1]
+                bf = bs[np.isfinite(bs)]       # the cold-started roughness iteration fails at some single winds
+                has_root = len(bf) >= 12 and bf[0] < 0 < bf[-1]
+                run.count("scan_points_not_finite", int(np.sum(~np.isfinite(bs))))
                 run.count("balance_has_root_in_2_40" if has_root else "balance_without_root_in_2_40")
+                weak = abs(Db[i]) < 1e-6        # onset of breaking: typical breaking seas have 1e-5 .. 1e-3 m^2/s
+                if weak:
+                    run.count("weak_breaking_points")
                 if np.isnan(u10[i]):
                     run.count("u10_nan")
                     if has_root:
                         run.violation("the inversion reports a missing wind although the balance has a root between 2 and 40 m/s",
-                                      dict(what, balance_at_2=float(bs[0]), balance_at_40=float(bs[-1])))
+                                      dict(what, balance_scan=[None if not np.isfinite(b) else float(b) for b in bs]),
+                                      sig="weak_breaking_nan" if weak else None)
                     continue
                 if not (u10[i] > 0):
                     run.violation("the estimated U10 is neither missing nor positive", what)
                     continue
-                b0 = balance_at(i, float(u10[i]))
-                blo = balance_at(i, max(float(u10[i]) - 0.03, 1e-3))
-                bhi = balance_at(i, float(u10[i]) + 0.03)
-                if not ((np.isfinite(blo) and np.isfinite(bhi) and (blo <= 0 <= bhi or bhi <= 0 <= blo)) or (np.isfinite(b0) and abs(b0) <= 1e-3 * abs(Db[i]))):
-                    run.violation("integrated wind input plus dissipation (minus the active rate of change) does not vanish within the 0.01 m/s step tolerance at the estimated U10",
-                                  dict(what, balance=b0, balance_minus=blo, balance_plus=bhi))
+                # the solver bounds its last *step* by 0.01 m/s (under-relaxed by 0.9, possibly an Aitken extrapolation),
+                # not the distance to the root: distances up to 0.032 m/s occur on the unchanged tree; window = 10 steps.
+                # The independent evaluation restarts the roughness iteration cold and can fail (NaN) at single winds.
+                offs = [-0.1, -0.05, -0.03, -0.01, 0.0, 0.01, 0.03, 0.05, 0.1]
+                vals = [(o, balance_at(i, max(float(u10[i]) + o, 1e-3))) for o in offs]
+                fin = [(o, b) for o, b in vals if np.isfinite(b)]
+                b0 = dict(vals)[0.0]
+                lo_side = [b for o, b in fin if o < 0]
+                hi_side = [b for o, b in fin if o > 0]
+                small = any(abs(b) <= 1e-3 * abs(Db[i]) for _, b in fin)
+                straddle = fin and (min(b for _, b in fin) <= 0 <= max(b for _, b in fin))
+                if not lo_side or not hi_side:
+                    run.count("balance_not_evaluable_on_both_sides")
+                elif abs(Db[i]) < 1e-10:
+                    run.count("dissipation_at_rounding_level")      # 1e-13 against typical 1e-4: numerically no dissipation
+                elif not (straddle or small):
+                    run.violation("integrated wind input plus dissipation (minus the active rate of change) does not vanish within ten solver steps (0.1 m/s) of the estimated U10",
+                                  dict(what, balance_at_offsets=[[o, b] for o, b in vals]))
                 # correspondence: the model's balance function and inversion
                 drv.ask(wp.ctx_line(spec, i, gp, True))
                 dedt = np.zeros((nf, nd)) if tds is None else tds.variance_density.values[i]
